@@ -78,6 +78,8 @@ def gen_request(nb=None, small=False):
         # attribute values with characters that are ordinary inside double quotes: apostrophes, '=', '/', '>' as &gt; is not needed, spaces, non-ASCII
         spice = lambda v: v + R.choice(["'", "'s", " o'clock", "='x'", "/2", " ", ".b", "-é", "'\''"])
         req["id"] = spice(req["id"])
+        if R.random() < 0.5:
+            req["id"] = R.choice([" ", ""]) + req["id"] + R.choice([" ", "  ", "\t"])
         j = R.randrange(len(req["bundles"]))
         req["bundles"][j]["id"] = spice(req["bundles"][j]["id"])
         if req["bundles"][j].get("signers"):
@@ -89,8 +91,19 @@ def same(a, b):
     return a == b
 
 
-def violation(kind, msg, doc, extra=None):
-    rep.violation("impl-vs-spec", f"{kind}: {msg}", {"kind": kind, "document": doc[:6000], **(extra or {})})
+def violation(kind, msg, doc, extra=None, key=None):
+    rep.violation("impl-vs-spec", f"{kind}: {msg}", {"kind": kind, "document": doc[:6000], **(extra or {})}, key=key)
+
+
+def tabs_to_spaces(v):
+    """the reader's dict with XML attribute-value normalisation of tabs applied (to tell that one known difference from any other)"""
+    if isinstance(v, dict):
+        if set(v.keys()) == {"attrs", "value"}:
+            return {"attrs": {k: x.replace("\t", " ") for k, x in v["attrs"].items()}, "value": tabs_to_spaces(v["value"])}
+        return {k: tabs_to_spaces(x) for k, x in v.items()}
+    if isinstance(v, list):
+        return [tabs_to_spaces(x) for x in v]
+    return v
 
 
 def compare_with_et(kind, doc, ksr=True):
@@ -107,6 +120,9 @@ def compare_with_et(kind, doc, ksr=True):
         violation(kind, f"reader failed ({r[2]}) on a plain-form document a standard parser accepts", doc)
         return None
     if r[1] != ref:
+        if tabs_to_spaces(r[1]) == ref:
+            violation(kind, "a tab inside an attribute value is kept by the reader and normalised to a space by ElementTree", doc, key="attr-value-tab-not-normalised")
+            return r[1]
         violation(kind, "reader and ElementTree extract different data", doc, {"reader": str(r[1])[:1500], "elementtree": str(ref)[:1500]})
         return None
     return r[1]
@@ -144,6 +160,17 @@ for i in range(120 * SCALE):
             diffs.append("zsk_policy." + f)
     if {b.id: b for b in base.bundles} != {b.id: b for b in want_req.bundles} or len(base.bundles) != len(want_req.bundles):
         diffs.append("bundles")
+    # identifiers character for character, against the generator's own strings (not re-built through the tool's data classes)
+    if base.id != req["id"]:
+        diffs.append(f"id {base.id!r} != {req['id']!r}")
+    if sorted(b.id for b in base.bundles) != sorted(b["id"] for b in req["bundles"]):
+        diffs.append("bundle ids")
+    if sorted(k.key_identifier for b in base.bundles for k in b.keys) != sorted(k["id"] for b in req["bundles"] for k in b["keys"]):
+        diffs.append("key identifiers")
+    if sorted(s.key_identifier for b in base.bundles for s in b.signatures) != sorted(s["id"] for b in req["bundles"] for s in b["sigs"]):
+        diffs.append("signature key identifiers")
+    if sorted(x.key_identifier for b in base.bundles for x in (b.signers or [])) != sorted(x for b in req["bundles"] for x in b.get("signers", [])):
+        diffs.append("signer identifiers")
     count("request-vs-generator")
     if diffs:
         violation("canonical", f"the loaded request differs from the document's content in {diffs}"
